@@ -1874,7 +1874,11 @@ package ucfg
 
 // reifyInto writes the target in place: what it is handed has to be settable behind its pointers, or a non-nil map
 //@ func reifyInto :: opts, to, from -> result
-//@ trusted
+//@ props C07
+//@ sweep
+//@ uses chase
+//@ norte assert
+//@ note the type assertion on the result of reflect's Interface() (a handle of type ucfg.Config, found by tryTConfig) is not claimed: the contracts do not relate reflect.Type values to static types
 //@ requires rvCanSet(chasedP(to)) || (rvKind(chasedP(to)) == 21 && !rvNil(chasedP(to)))
 //@ modifies *
 //@ rvwrites rvRootOf(to), pointeeStore()
